@@ -89,11 +89,28 @@ class K:
 gin.register(module='mod')(K)
 """, _m.__dict__)  # pylint: disable=exec-used
 
+_m2 = types.ModuleType('c06m2')
+_m2.gin = gin
+sys.modules['c06m2'] = _m2
+exec("""
+class K:
+  def __init__(self, p=None, q=None):
+    self.p, self.q = p, q
+
+  @gin.register
+  def meth(self, p=None, q=None):
+    return (p, q)
+
+gin.register(module='mod2')(K)
+""", _m2.__dict__)  # pylint: disable=exec-used
+
 SELECTORS = {  # as written in configs -> (params, name used for alphabetical order)
     # parameter names differing only in case (p / P): 'parameters sorted' must still be a total,
     # order-independent order
     'a.b.fn': ('pqrPQ', 'fn'), 'c.b.fn': ('pq', 'fn'), 'gn': ('pqP', 'gn'), 'x.Gn': ('pq', 'gn'),
     'mod.K': ('pq', 'k'), 'mod.K.meth': ('pq', 'k.meth'),
+    # a second class of the same name, with a registered method of the same name, elsewhere
+    'mod2.K': ('pq', 'k'), 'mod2.K.meth': ('pq', 'k.meth'),
     # Gin's own configurable: `<scope>/singleton.constructor = @fn` is a binding like any other
     'gin.singleton': (('constructor',), 'singleton')}
 FULL = sorted(SELECTORS)
@@ -687,6 +704,35 @@ def check_case(case):
     got = gin.query_parameter(f"{scope + '/' if scope else ''}{sel}.{param}")
     require(got == 'changed-afterwards', 'config_str-stale-after-change', repr(got))
 
+  # ---- the text follows a later registration (shortest names are computed, not remembered) ---
+  if bind_items and case.get('late_registration'):
+    gin.clear_config()
+    apply(items, order)
+    gin.config_str(width, indent)
+    keep = {}
+    for kind, key, v, _ in items:
+      if kind == 'bind' and representable(v):
+        scope, sel, param = key
+        keep[key] = canonical(gin.query_parameter(f"{scope + '/' if scope else ''}{sel}.{param}"))
+    # names that were unique become ambiguous: gn (x.Gn / late.gn differ in case only from gn...),
+    # a third K, another b.fn
+    gin.configurable('Gn', module='late')(_mk('Gn', 'pq'))      # 'Gn' was the shortest name of x.Gn
+    gin.configurable('K', module='late.mod3')(_mk('K', 'pq'))
+    gin.configurable('fn', module='late.b')(_mk('fn', 'pq'))
+    gin.configurable('meth', module='late.K')(_mk('meth', 'pq'))
+    third = gin.config_str(width, indent)
+    gin.clear_config()
+    try:
+      gin.parse_config(third)
+    except Exception as e:  # pylint: disable=broad-except
+      raise Violation('config_str-does-not-parse-after-late-registration',
+                      f'{type(e).__name__}: {e}\n{third}')
+    for (scope, sel, param), want in keep.items():
+      got = canonical(gin.query_parameter(f"{scope + '/' if scope else ''}{sel}.{param}"))
+      require(got == want, 'round-trip-after-late-registration',
+              lambda: f'{scope}/{sel}.{param}: {got} vs {want}\n{third}')
+    labels.add('late-registration-then-config_str')
+
   # ---- classification -----------------------------------------------------------------------
   wraps = '\\\n' in s1
   vals = [v for kind, _, v, _ in items if kind != 'import']
@@ -794,6 +840,6 @@ def _static_case(draw):
   indent = draw(st.integers(0, 8))
   width = draw(st.integers(max(5, indent + 1), 120) | st.sampled_from([20, 40, 80]))
   width = max(width, indent + 1)
-  return {'bindings': bindings, 'macros': macros,
+  return {'bindings': bindings, 'macros': macros, 'late_registration': draw(st.integers(0, 2)) == 0,
           'imports': draw(st.lists(st.integers(0, len(IMPORTS) - 1), unique=True, max_size=3)),
           'perm': draw(st.integers(0, 10**6)), 'width': width, 'indent': indent}
